@@ -5,6 +5,7 @@ package zapcore
 import (
 	"errors"
 	"fmt"
+	"sync"
 
 	"go.uber.org/multierr"
 	vrt "go.uber.org/zap/internal/vrt"
@@ -113,3 +114,91 @@ func VC13Multi3() { vCheckMulti(3) }
 
 //verif: prop=C13 tier=thorough bounds="multi-WriteSyncer of 4 sinks"
 func VC13Multi4() { vCheckMulti(4) }
+
+type vPlainWriter struct {
+	n   int
+	err error
+	got []byte
+}
+
+func (w *vPlainWriter) Write(p []byte) (int, error) {
+	w.got = append([]byte(nil), p...)
+	return w.n, w.err
+}
+
+// AddSync and Lock relay the wrapped writer's result unchanged.
+//
+//verif: prop=C13 bounds="AddSync(io.Writer | WriteSyncer) and Lock(ws): wrapped (n, err) with n any int and err present or not relayed unchanged; AddSync keeps an existing Sync; Lock is idempotent"
+func VC13Relay() {
+	payload := vrt.Bytes("p", 2)
+	n := vrt.Int("n")
+	var werr error
+	if vrt.Choice("err", 2) == 1 {
+		werr = errors.New("w")
+	}
+	switch vrt.Choice("wrapper", 3) {
+	case 0: // AddSync over a plain writer: no-op Sync added
+		w := &vPlainWriter{n: n, err: werr}
+		ws := AddSync(w)
+		k, err := ws.Write(payload)
+		vrt.Assert("addsync-relays", k == n && err == werr && string(w.got) == string(payload))
+		vrt.Assert("addsync-noop-sync", ws.Sync() == nil)
+	case 1: // AddSync over something that already syncs: kept as is
+		s := &vSink{n: n, err: werr, syncErr: errors.New("s")}
+		ws := AddSync(s)
+		k, err := ws.Write(payload)
+		vrt.Assert("addsync-keeps-writesyncer", k == n && err == werr)
+		vrt.Assert("addsync-keeps-existing-sync", ws.Sync() == s.syncErr && s.syncs == 1)
+	case 2:
+		s := &vSink{n: n, err: werr, syncErr: errors.New("s")}
+		ws := Lock(s)
+		k, err := ws.Write(payload)
+		vrt.Assert("lock-relays-write", k == n && err == werr && len(s.got) == 1 && string(s.got[0]) == string(payload))
+		vrt.Assert("lock-relays-sync", ws.Sync() == s.syncErr && s.syncs == 1)
+		vrt.Assert("lock-idempotent", Lock(ws) == ws)
+	}
+}
+
+// vReentrySink detects two goroutines inside the sink at once.
+type vReentrySink struct {
+	inside int
+	writes int
+	syncs  int
+}
+
+func (s *vReentrySink) Write(p []byte) (int, error) {
+	s.inside++
+	vrt.Assert("writes-and-syncs-mutually-exclusive", s.inside == 1)
+	vrt.Yield()
+	s.writes++
+	s.inside--
+	return len(p), nil
+}
+func (s *vReentrySink) Sync() error {
+	s.inside++
+	vrt.Assert("writes-and-syncs-mutually-exclusive", s.inside == 1)
+	vrt.Yield()
+	s.syncs++
+	s.inside--
+	return nil
+}
+
+//verif: prop=C13 bounds="two goroutines doing Write || Write and Write || Sync through Lock(sink); the sink yields inside its critical section; every schedule at synchronisation points (preemption bound 2); happens-before race monitor on"
+func VC13LockExclusive() {
+	s := &vReentrySink{}
+	ws := Lock(s)
+	var wg sync.WaitGroup
+	wg.Add(2)
+	second := vrt.Choice("second", 2)
+	go func() { defer wg.Done(); ws.Write([]byte("a")) }()
+	go func() {
+		defer wg.Done()
+		if second == 0 {
+			ws.Write([]byte("b"))
+		} else {
+			ws.Sync()
+		}
+	}()
+	wg.Wait()
+	vrt.Assert("all-operations-ran", s.writes+s.syncs == 2)
+}
